@@ -116,8 +116,49 @@ def t_sharded(ctx, it):
     gate_claims(ctx, "sharded_update_fn.gate", errs.at((k,)), tau, stored.at((k, i, j)), new.at((k, i, j)), old.at((k, i, j)))
 
 
+def t_quantized_triple(ctx, it):
+  """pmap-quantized mode: a stored preconditioner is a TRIPLE (quantized matrix, diagonal, bucket sizes); the selection
+  loop of _pmap_quantized_compute_preconditioners (extracted mechanically: from `def _skip` through the loop) keeps or
+  replaces it COMPONENTWISE: each component is the old one when the error is rejected, the new one otherwise."""
+  it.load_module(DS)
+  qual = L + "_pmap_quantized_compute_preconditioners"
+  n = spec.fresh_int("n", lo=1)
+  mx = spec.fresh_int("max_size", lo=1)
+  ctx.assume(n <= mx)
+  tau = spec.fresh_real("inverse_failure_threshold")
+  err = spec.fresh_real("error")
+
+  class Obj:
+    pass
+
+  prev = Obj()
+  prev.quantized, prev.diagonal, prev.bucket_size = T.opaque("old_q", (n, n)), T.opaque("old_d", (n,)), T.opaque("old_b", (n,))
+  newq, newd, newb = T.opaque("new_q", (mx, mx)), T.opaque("new_d", (mx,)), T.opaque("new_b", (mx,))
+  metrics = Obj()
+  metrics.inverse_pth_root_errors = [T.asarray(err)]
+  first = lambda st: isinstance(st, ast.FunctionDef) and st.name == "_skip"
+  last = lambda st: isinstance(st, ast.For) and any(isinstance(x, ast.Name) and x.id == "new_quantized_bucket_sizes_flat" for x in ast.walk(st))
+  out = it.exec_block_in(DS, qual, first, last,
+                         {"inverse_failure_threshold": tau, "metrics_flat": metrics, "quantized_preconditioners_flat": [newq],
+                          "quantized_diagonals_flat": [newd], "quantized_bucket_sizes_flat": [newb], "original_shapes": [(n, n)],
+                          "prev_preconditioners": [prev]})
+  i = spec.fresh_int("i")
+  j = spec.fresh_int("j")
+  ctx.assume(sym.sand(i >= 0, i < n, j >= 0, j < n))
+  keep = err >= tau
+  q1, d1, b1 = out["new_quantized_preconditioners_flat"], out["new_quantized_diagonals_flat"], out["new_quantized_bucket_sizes_flat"]
+  ctx.require("_pmap_quantized_compute_preconditioners.select: one entry per statistic in each of the three lists",
+              len(q1) == 1 and len(d1) == 1 and len(b1) == 1)
+  ctx.oblige("_pmap_quantized_compute_preconditioners.select.post: quantized matrix = old if rejected else new",
+             q1[0].at((i, j)) == sym.ite(keep, prev.quantized.at((i, j)), newq.at((i, j))))
+  ctx.oblige("_pmap_quantized_compute_preconditioners.select.post: diagonal = old DIAGONAL if rejected else new",
+             d1[0].at((i,)) == sym.ite(keep, prev.diagonal.at((i,)), newd.at((i,))))
+  ctx.oblige("_pmap_quantized_compute_preconditioners.select.post: bucket sizes = old BUCKET SIZES if rejected else new",
+             b1[0].at((i,)) == sym.ite(keep, prev.bucket_size.at((i,)), newb.at((i,))))
+
+
 def tasks(tier):
-  ts = []
+  ts = [Task("quantized pmap selection keeps / replaces the triple componentwise", t_quantized_triple)]
   for s in SITES:
     ts.append(Task(f"gate[{s}]", mk_gate(s, True)))
     ts.append(Task(f"gate non-refresh[{s}]", mk_gate(s, False)))
